@@ -547,14 +547,27 @@ def _parse_raw_config(ctx: ProjectContext) -> RawConfig:
             )
             raise RuntimeError(err_msg)
 
-    if ctx.config_rel_path not in raw_cfg['file_patterns']:
+    cfg_raw_patterns = raw_cfg['file_patterns'].get(ctx.config_rel_path, [])
+    if isinstance(cfg_raw_patterns, str):
+        cfg_raw_patterns = [cfg_raw_patterns]
+
+    # NOTE: also when the config file is listed, but none of its patterns
+    #   is meant for the current_version line (e.g. only 'version = "{pep440_version}"')
+    if not any("current_version" in raw_pattern for raw_pattern in cfg_raw_patterns):
         with ctx.config_filepath.open(mode="rt", encoding="utf-8") as fobj:
             raw_cfg_text = fobj.read()
 
         # NOTE (mb 2020-09-19): By default we always add
         #   a pattern for the config section itself.
         raw_version_pattern = _parse_current_version_default_pattern(raw_cfg, raw_cfg_text)
-        raw_cfg['file_patterns'][ctx.config_rel_path] = [raw_version_pattern]
+        # NOTE: it comes first, so that its line is not claimed by another pattern
+        file_patterns = {ctx.config_rel_path: [raw_version_pattern] + list(cfg_raw_patterns)}
+        file_patterns.update(
+            (path, patterns)
+            for path, patterns in raw_cfg['file_patterns'].items()
+            if path != ctx.config_rel_path
+        )
+        raw_cfg['file_patterns'] = file_patterns
 
     return raw_cfg
 
